@@ -55,7 +55,13 @@ def run_masks(case):
 
 
 def _one(res, case, n, W, ratio, slope, ms, ans):
+    variant = case.get("variant", "scalar")
     cfg = dict(d=1, n_particles=n, ess_ratio=ratio, n_total=10 ** 6, clustering=False, eval="scalar", prior="affine", target="flat")
+    if variant == "vec32":      # vectorised likelihood returning float32
+        cfg.update(eval="vec", ll_dtype="float32")
+    elif variant == "prior32":  # prior transform returning float32
+        cfg.update(eval="vec", prior="affine32")
+    anneal = case.get("anneal", 0)
     hole = targets.Hole(F, slope=slope)
     p = Probe(cfg)
     p.ll.f = hole  # instrumented likelihood evaluates the hole target
@@ -63,6 +69,8 @@ def _one(res, case, n, W, ratio, slope, ms, ans):
     rec = {"logz0": [], "first_pos": None, "neg_inf": None, "choice_calls": 0, "draws": {}}
 
     def h_rand(t, *a, **k):
+        if a == (n,) and anneal:
+            return np.zeros(n)  # Metropolis uniforms 0.0: every proposal with a non-zero acceptance probability is accepted
         if a == (n, 1):
             it = beta0_iter[0]
             beta0_iter[0] += 1
@@ -88,17 +96,23 @@ def _one(res, case, n, W, ratio, slope, ms, ans):
         if ev.step == "commit":
             if any(not np.all(np.isfinite(b)) for b in st._history["logl"]):
                 rec["neg_inf"] = rec["neg_inf"] or (ev.iter, ev.step, "history")
+            # every stored particle lies in the supported region and is the image of its own unit-cube point
+            ub, xb = np.asarray(st._history["u"][-1], dtype=float), np.asarray(st._history["x"][-1], dtype=float)
+            for i in range(len(ub)):
+                xi = 20.0 * ub[i] - 10.0
+                if not np.allclose(xb[i], xi, rtol=1e-6, atol=1e-5) or not (xb[i][0] < 20.0 * F - 10.0):
+                    rec["unsupported"] = rec.get("unsupported") or (ev.iter, i, xb[i].tolist(), ub[i].tolist())
             if float(cur["beta"]) == 0.0:
                 rec["logz0"].append(float(st._history["logz"][-1]))
         if ev.step == "reweight" and float(cur["beta"]) > 0.0 and rec["first_pos"] is None:
             rec["first_pos"] = (float(cur["beta"]), float(cur["logz"]), ev.iter)
 
     p.monitors.append(mon)
-    p.steps(W + 1)
+    p.steps(W + 1 + anneal)
     res.evals += 1
     res.states += p.events
     res.trans += p.events
-    cc = {"kind": "masks", "n": n, "W": W, "slope": slope, "only": [list(m) for m in ms], "answers": False}
+    cc = {"kind": "masks", "n": n, "W": W, "slope": slope, "only": [list(m) for m in ms], "answers": False, "variant": variant, "anneal": anneal}
     label = f"n={n} W={W} masks={[''.join(map(str, m)) for m in ms]}"
     all_inf = any(all(m) for m in ms)
     nontriv = any(any(m) for m in ms)
@@ -125,7 +139,10 @@ def _one(res, case, n, W, ratio, slope, ms, ans):
         if W == 0:
             return
     if rec["neg_inf"] is not None:
-        res.violate("hole:minus-inf-stored", f"{label}: a -inf/nan log-likelihood was stored at {rec['neg_inf']}", cc)
+        res.violate("hole:minus-inf-stored", f"{label} [{variant}{', annealing with uniforms 0' if anneal else ''}]: a -inf/nan log-likelihood was stored at {rec['neg_inf']}", cc)
+        return
+    if rec.get("unsupported") is not None:
+        res.violate("hole:unsupported-particle-stored", f"{label} [{variant}]: a stored particle lies outside the supported region / is not the image of its unit-cube point: {rec['unsupported']}", cc)
         return
     if len(rec["logz0"]) < W:
         res.violate(f"hole:warmup-length", f"{label}: expected {W} beta=0 iterations, recorded {len(rec['logz0'])} (exc={p.exc!r})", cc)
@@ -170,6 +187,14 @@ def plan(ctx):
                         cases.append({"kind": "masks", "n": n, "W": W, "slope": slope, "first_mask": list(fm), "answers": W <= 2})
                 else:
                     cases.append({"kind": "masks", "n": n, "W": W, "slope": slope, "answers": W <= 2})
+    for variant in ("vec32", "prior32"):
+        for n in (2, 3):
+            for W in (1, 2):
+                cases.append({"kind": "masks", "n": n, "W": W, "slope": 0.3, "answers": False, "variant": variant})
+    for (n, W) in ((3, 1), (3, 2), (4, 1)) + (((4, 2),) if th else ()):
+        for slope in (0.3, 300.0):
+            for fm in itertools.product([0, 1], repeat=n):
+                cases.append({"kind": "masks", "n": n, "W": W, "slope": slope, "answers": False, "anneal": 3 if th else 2, "first_mask": list(fm)})
     ctx.bounds.update({"n_particles": [2, 3, 4], "warmup_iterations": [1, 2, 3, 4], "mask_sequences_max": 65536 if th else 4096, "supported_fraction": F})
     ctx.explore("mask-sequences", cases)
     ctx.res.sample({"n": 3, "W": 2, "masks": ["010", "100"], "expected_logZ_interval": [math.log(2 / 3), math.log(2 / 3)]})
